@@ -741,10 +741,12 @@ func (mq *MessageQueue) pendingWorkCount() int {
 // Convert the lists of wants into a Bitswap message
 func (mq *MessageQueue) extractOutgoingMessage(supportsHave bool) (bsmsg.BitSwapMessage, func()) {
 	// Get broadcast and regular wantlist entries.
+	verifPoint(0, 0, 0, 0)
 	mq.wllock.Lock()
 	peerEntries := mq.peerWants.pending.Entries()
 	bcstEntries := mq.bcstWants.pending.Entries()
 	cancels := mq.cancels.Keys()
+	verifSortCids(cancels)
 	if !supportsHave {
 		filteredPeerEntries := peerEntries[:0]
 		// If the remote peer doesn't support HAVE / DONT_HAVE messages,
@@ -765,6 +767,7 @@ func (mq *MessageQueue) extractOutgoingMessage(supportsHave bool) (bsmsg.BitSwap
 		peerEntries = filteredPeerEntries
 	}
 	mq.wllock.Unlock()
+	verifPoint(1, len(cancels), len(peerEntries), len(bcstEntries))
 
 	// We prioritize cancels, then regular wants, then broadcast wants.
 
@@ -817,6 +820,7 @@ func (mq *MessageQueue) extractOutgoingMessage(supportsHave bool) (bsmsg.BitSwap
 	}
 
 FINISH:
+	verifPoint(2, sentCancels, sentPeerEntries, sentBcstEntries)
 
 	// Finally, re-take the lock, mark sent and remove any entries from our
 	// message that we've decided to cancel at the last minute.
